@@ -258,7 +258,7 @@ def call_method(ip, recv, name, args, kw):
             (x,) = args
             if not ip.is_byteslike(x):
                 raise PyRaise(ExcVal(TypeError, tag='extend-nonbytes'))
-            st.mem[recv.ident] = cat(BYTEARRAY, [b, ip.bytes_of(x)])
+            st.mem[recv.ident] = materialise(ip, cat(BYTEARRAY, [b, ip.bytes_of(x)]), 'ext')
             st.memwrites.append(recv.ident)
             return None
         if name == 'find':
@@ -325,6 +325,17 @@ def call_method(ip, recv, name, args, kw):
     raise Unsupported('method %s of %r' % (name, recv))
 
 
+def materialise(ip, b, name):
+    """name a composed byte string: a fresh base array defined point-wise (so that later quantified
+    facts about it have a usable trigger)"""
+    st = ip.st
+    nm = sval.FRESH.name(name)
+    arr = z3.Array(nm, I, I)
+    x = fresh('mx')
+    st.hyps.append(ForAll([x], Implies(And(x >= 0, x < b.n), z3.Select(arr, x) == b.at(x)), patterns=[z3.Select(arr, x)]))
+    return SBytes(b.kind, b.n, lambda i, arr=arr: z3.Select(arr, iv(i)), arr=arr, meta=b.meta)
+
+
 def freeze(ip, ref):
     """an object appended to an abstract list is stored as an immutable snapshot record; later
     writes to it are outside the subset (reported as undecided)"""
@@ -349,7 +360,7 @@ def bytes_find(ip, b, args):
     st.assume(r >= -1, r <= b.n - m if m > 0 else r <= b.n)
     st.assume(Implies(r >= 0, match_at(r)))
     st.hyps.append(ForAll([p], Implies(And(p >= 0, p + m <= b.n, Or(r == -1, p < r)), Not(match_at(p))),
-                          patterns=[b.at(p)]))
+                          patterns=[b.at(p)] if b.arr is not None else []))
     st.ghost.setdefault('finds', []).append((r, b, sep))
     return r
 
